@@ -423,4 +423,125 @@ HVerdict(H) ==
         step |-> IF bad = {} THEN 0 ELSE CHOOSE k \in bad : \A j \in bad : k <= j,
         explained |-> FALSE, known |-> {},
         wellformed |-> HWellFormed(H)]
+-----------------------------------------------------------------------------
+(* RUNS.  The real Solver.solve() with adaptive_timestep on, driven by an   *)
+(* integrator whose initial evaluation and steps leave a scripted state    *)
+(* (h, dt_cfl, dt_force, dt_visc, dt_adapt) in the arrays: "the step       *)
+(* proposed for the NEXT iteration is ..." - the statement is about WHEN   *)
+(* the criteria are consulted as well.  A run is                           *)
+(*   [id, cfl, dt, ndamp, tf, outs, pfreq, maxsteps,                       *)
+(*    states : Seq(arrays),     \* states[1] is left by initial_acceleration,*)
+(*                              \* states[j+1] by the j-th integrator.step *)
+(*    steps  : Seq([t, dt, count, state])]  \* recorded: integrator.step(t, dt)*)
+(*                              \* and the index of the state in force     *)
+(* (no ghost particles, so Allowed is a single value).  For the j-th step  *)
+(* the documented proposal is Allowed(state in force = states[j]); when no *)
+(* criterion applies the step in force is kept (the initial dt or the last *)
+(* proposal); the step taken is at most the proposal times the damping     *)
+(* factor, and equal to it unless tf or a requested output time lies       *)
+(* inside the step (C10 decides what exactly happens then).                *)
+RAdd(a, b) == R(a[1] * b[2] + b[1] * a[2], a[2] * b[2])
+RSub(a, b) == R(a[1] * b[2] - b[1] * a[2], a[2] * b[2])
+RStateIdx(U, j) == IF j <= Len(U.states) THEN j ELSE Len(U.states)
+RCase(U, j) == [id |-> U.id, cfl |-> U.cfl, dt |-> U.dt, fixed_h |-> FALSE,
+                arrays |-> U.states[RStateIdx(U, j)]]
+\* the arrays before the initial evaluation: criteria still all zero
+ZeroPart(p) == [h |-> p.h, adapt |-> Zero, cfl |-> Zero, force |-> Zero,
+                visc |-> Zero]
+RPreCase(U) ==
+    [id |-> U.id, cfl |-> U.cfl, dt |-> U.dt, fixed_h |-> FALSE,
+     arrays |-> [a \in 1 .. Len(U.states[1]) |->
+                   [has |-> U.states[1][a].has, ghost |-> <<>>,
+                    real |-> [i \in 1 .. Len(U.states[1][a].real) |->
+                                ZeroPart(U.states[1][a].real[i])]]]]
+
+RECURSIVE RProp(_, _)
+RProp(U, j) ==                       \* undamped proposal for the j-th step
+    LET nums == {e.v : e \in {x \in Allowed(RCase(U, j)) : x.k = "num"}}
+    IN IF nums # {} THEN RMinOf(nums)
+       ELSE IF j = 1 THEN N(U.dt) ELSE RProp(U, j - 1)
+RFull(U, j) == RMul(RProp(U, j), DampFactor(U.ndamp, j - 1))
+ROuts(U) == {N(U.outs[i]) : i \in 1 .. Len(U.outs)}
+RCut(U, j) ==                        \* tf or an output time inside the step
+    LET t == N(U.steps[j].t)
+        e == RAdd(t, RFull(U, j))
+    IN \/ RLt(N(U.tf), e)
+       \/ \E r \in ROuts(U) : RLt(t, r) /\ RLt(r, e)
+
+RNames == {"State", "Time", "Bound", "Full", "Steps"}
+RFailedAt(U, j) ==
+    LET q == U.steps[j]
+    IN {n \in RNames :
+          ~ CASE n = "State" -> q.state = j /\ q.count = j - 1
+              [] n = "Time" ->
+                   IF j = 1 THEN N(q.t) = Zero
+                   ELSE Close(q.t, RAdd(N(U.steps[j - 1].t),
+                                        N(U.steps[j - 1].dt)))
+              [] n = "Bound" -> LeTol(q.dt, RFull(U, j))
+              [] n = "Full" -> RCut(U, j) \/ Close(q.dt, RFull(U, j))
+              [] n = "Steps" ->
+                   j < Len(U.steps) \/ j = U.maxsteps
+                   \/ Close(RAdd(N(q.t), N(q.dt)), N(U.tf))}
+RBad(U) == {j \in 1 .. Len(U.steps) : RFailedAt(U, j) # {}}
+RWellFormed(U) == \A j \in 1 .. Len(U.states) : WellFormed(RCase(U, j))
+
+\* (M) the solver loop around the proposals (Solver.solve, _get_timestep,
+\* _dump_output_if_needed), all times exact.  A loop state is
+\* [t, sdt (solver.dt), sfac (_damping_factor), prev (_prev_dt), count].
+\* rd seeds defects to measure the sensitivity of the run universe:
+\*   "R-prev-dt-reused"      after a step shortened for an output time the
+\*                           saved step is taken without asking again
+\*   "R-ask-before-initial"  the first proposal is made before
+\*                           initial_acceleration has run
+RDefectIds == {"R-prev-dt-reused", "R-ask-before-initial"}
+RM_Start(U) == [t |-> Zero, sdt |-> N(U.dt), sfac |-> One, prev |-> NoneV,
+                count |-> 0]
+RM_Ask(U, st, c, rd) ==              \* _get_timestep on the arrays of case c
+    IF st.t = N(U.tf) THEN st
+    ELSE LET s1 == IF st.prev.k = "num"
+                   THEN [st EXCEPT !.sdt = st.prev.v, !.prev = NoneV] ELSE st
+         IN IF "R-prev-dt-reused" \in rd /\ st.prev.k = "num" THEN s1
+            ELSE LET res == Mech(c)
+                     und == RDiv(s1.sdt, s1.sfac)
+                     kept == IF res.k = "num" THEN res.v ELSE und
+                     fac == DampFactor(U.ndamp, st.count)
+                     d == RMul(kept, fac)
+                     d2 == IF RLe(N(U.tf), RAdd(st.t, d))
+                           THEN RSub(N(U.tf), st.t) ELSE d
+                 IN [s1 EXCEPT !.sdt = d2, !.sfac = fac]
+RM_Dump(U, st) ==                    \* _dump_output_if_needed
+    LET cand == {i \in 1 .. Len(U.outs) :
+                   /\ RLt(st.t, N(U.outs[i]))
+                   /\ RLt(RSub(N(U.outs[i]), st.t), st.sdt)}
+    IN IF st.t = N(U.tf) \/ cand = {} THEN st
+       ELSE LET i == CHOOSE x \in cand : \A y \in cand : x <= y
+            IN [st EXCEPT !.prev = Num(st.sdt),
+                          !.sdt = RSub(N(U.outs[i]), st.t)]
+RM_First(U, rd) ==
+    RM_Ask(U, RM_Start(U),
+           IF "R-ask-before-initial" \in rd THEN RPreCase(U) ELSE RCase(U, 1),
+           rd)
+RM_CanStep(U, st) == RLt(st.t, N(U.tf)) /\ st.count < U.maxsteps
+\* one iteration: integrator.step(t, sdt) leaves states[count + 2]
+RM_Iter(U, st, rd) ==
+    LET s1 == [st EXCEPT !.t = RAdd(st.t, st.sdt), !.count = st.count + 1]
+    IN RM_Dump(U, RM_Ask(U, s1, RCase(U, st.count + 2), rd))
+RM_Log(st) == [t |-> st.t, dt |-> st.sdt, count |-> st.count,
+               state |-> st.count + 1]
+RECURSIVE RMechFrom(_, _, _)
+RMechFrom(U, st, j) ==
+    IF j > Len(U.steps) THEN ~ RM_CanStep(U, st)
+    ELSE /\ RM_CanStep(U, st)
+         /\ Close(U.steps[j].t, st.t) /\ Close(U.steps[j].dt, st.sdt)
+         /\ RMechFrom(U, RM_Iter(U, st, {}), j + 1)
+RMechSame(U) == RMechFrom(U, RM_First(U, {}), 1)
+
+RVerdict(U) ==
+    LET bad == RBad(U)
+        f == UNION {RFailedAt(U, j) : j \in bad}
+    IN [id |-> U.id,
+        failed |-> IF Len(U.steps) = 0 THEN {"Steps"} ELSE f,
+        step |-> IF bad = {} THEN 0 ELSE CHOOSE k \in bad : \A j \in bad : k <= j,
+        explained |-> FALSE, known |-> {},
+        wellformed |-> RWellFormed(U)]
 =============================================================================
